@@ -22,7 +22,7 @@ HARD_WALL = 600
 KINDS = ['identical', 'vectorized', 'vectorized', 'vectorized', 'pool_l',
          'pool_l', 'verbose', 'ckpt', 'observe', 'observe', 'pool_s_order',
          'process_history', 'process_history']
-PROFILE = dict(p_pool_l=0.3, p_pool_s=0.15,
+PROFILE = dict(p_pool_l=0.3, p_pool_s=0.15, p_many_ellipsoids=0.1,
                prior_choices=['fn', 'fn', 'fn_inplace', 'fn_inplace', 'obj',
                               'obj_array', 'fn_dict'],
                fault_kinds=['slice', 'slice', 'stop_resume', 'timeout'])
